@@ -202,10 +202,28 @@ func BuildPacket(r *rec.Rec) (util.Message, error) {
 
 // BuildDHCP and BuildLLDP: these two kinds encode through Read(), not MarshalBinary.
 func BuildDHCP(r *rec.Rec) (*protocol.DHCP, error) {
-	d, err := protocol.NewDHCP(r.U32("xid"), protocol.DHCPOperation(r.U8("op")), r.U8("htype"))
+	var d *protocol.DHCP
+	var err error
+	hw := net.HardwareAddr(append([]byte(nil), r.Bytes("chaddr")...))
+	// through each message constructor (they differ in the options they pre-fill, which the recipe then replaces)
+	switch r.U32("xid") % 7 {
+	case 1:
+		d, err = protocol.NewDHCPDiscover(r.U32("xid"), hw)
+	case 2:
+		d, err = protocol.NewDHCPOffer(r.U32("xid"), hw)
+	case 3:
+		d, err = protocol.NewDHCPRequest(r.U32("xid"), hw)
+	case 4:
+		d, err = protocol.NewDHCPAck(r.U32("xid"), hw)
+	case 5:
+		d, err = protocol.NewDHCPNak(r.U32("xid"), hw)
+	default:
+		d, err = protocol.NewDHCP(r.U32("xid"), protocol.DHCPOperation(r.U8("op")), r.U8("htype"))
+	}
 	if err != nil {
 		return nil, err
 	}
+	d.Operation, d.HardwareType, d.Options = protocol.DHCPOperation(r.U8("op")), r.U8("htype"), nil
 	d.HardwareLen, d.HardwareOpts = r.U8("hlen"), r.U8("hops")
 	d.Secs, d.Flags = r.U16("secs"), r.U16("flags")
 	d.ClientIP = net.IP(append([]byte(nil), r.Bytes("ciaddr")...))
@@ -219,8 +237,24 @@ func BuildDHCP(r *rec.Rec) (*protocol.DHCP, error) {
 	d.ClientHWAddr = net.HardwareAddr(append([]byte(nil), ch...))
 	copy(d.ServerName[:], r.Bytes("sname"))
 	copy(d.File[:], r.Bytes("file"))
-	for _, o := range r.List("options") {
-		d.Options = append(d.Options, protocol.DHCPNewOption(o.U8("tag"), append([]byte(nil), o.Bytes("data")...)))
+	for i, o := range r.List("options") {
+		data := append([]byte(nil), o.Bytes("data")...)
+		var opt protocol.DHCPOption
+		// the same option through each of the option constructors the library offers
+		switch {
+		case i%3 == 1 && len(data) == 4:
+			opt, err = protocol.DHCPIP4Option(o.U8("tag"), net.IP(data))
+		case i%3 == 1 && len(data) > 0 && len(data)%4 == 0:
+			opt, err = protocol.DHCPIP4sOption(o.U8("tag"), ips(data))
+		case i%3 == 2 && o.U8("tag") != 0:
+			opt, err = protocol.DHCPStringOption(o.U8("tag"), string(data))
+		default:
+			opt = protocol.DHCPNewOption(o.U8("tag"), data)
+		}
+		if err != nil {
+			return nil, err
+		}
+		d.Options = append(d.Options, opt)
 	}
 	return d, nil
 }
